@@ -486,6 +486,13 @@ func (c *Conn) loadSession(hello *clientHelloMsg) (
 			return nil, nil, nil, nil
 		}
 
+		// [uTLS] A uTLS hello may lack extended_master_secret. A session that was
+		// established with it must then not be offered: the server is required to
+		// abort such a handshake (RFC 7627, Section 5.3).
+		if session.extMasterSecret && !hello.extendedMasterSecret {
+			return nil, nil, nil, nil
+		}
+
 		hello.sessionTicket = session.ticket
 		return
 	}
